@@ -1,5 +1,6 @@
 import ArgoVerif.Proofs.WaitListAll
 import ArgoVerif.Proofs.WLPtr
+import ArgoVerif.Proofs.PopWaitC7
 /-
 Props.C19 — timed waits respect their deadline and never damage the waiter queue
 (wait-list protocol; the pointer-level list with stale `p_prev` links: section "pointer-level wait-list" below).
@@ -219,5 +220,262 @@ example :
      s'.tail = 2 ∧ walk s'.next s'.head 2 = [1, 3] ∧ ¬ Rep s' [1] ∧ ¬ Rep s' [1, 3]) ∧
     Rep (removeTimed (removeTimed good 2) 3) [1] := by
   decide
+
+/-! ## blocking pool pops (Model.PopWait): FIFO / RANDWS sleep-poll loops, FIFO_WAIT condition wait -/
+
+/-- **a blocking pop never loses a unit, whatever the interleaving** (both pool kinds, any number of producers and
+consumers calling push / pop / pop_wait / pop_timedwait).  In every reachable state:
+(1) conservation — every unit that was linked by a push is, with multiplicity, either still queued or was unlinked by
+    exactly one pop (`pushed = queued + taken` as multisets), so nothing pushed while a consumer waits, sleeps, spins
+    on the lock or is about to give up can disappear;
+(2) a unit is handed to a caller only by the pop that unlinked it: an actor holds a unit (`got`) only between its own
+    `take` and its return, and a return delivers exactly the held unit;
+(3) a `pop_wait(t)` of the polling pools that returns empty-handed has read the clock at a value exceeding its start
+    time by more than `t` **and** its latest look at the pool in that same iteration saw it empty;
+(4) the same for `pop_timedwait(abs)` (clock read beyond `abs`) and for every other empty-handed pop. -/
+theorem popwait_no_loss (k : PopWait.Kind) (s : PopWait.St) (h : (PopWait.machine k).Reachable s) :
+    (∀ u, s.pushed.count u = s.q.count u + s.taken.count u) ∧
+    (∀ a u, s.got a = some u → s.pc a = .aRel ∨ s.pc a = .fnUnl ∨ s.pc a = .fwUnl ∨ s.pc a = .retp) ∧
+    (∀ a t tl, k = .poll → s.cur a = .popWait t tl → s.pc a = .retp → s.got a = none →
+        s.emptyAtPoll a = true ∧ ∃ s0, s.start a = some s0 ∧ s0 + t < s.lastRead a) ∧
+    (∀ a abs, k = .poll → s.cur a = .popTimedwait abs → s.pc a = .retp → s.got a = none →
+        s.emptyAtPoll a = true ∧ abs < s.lastRead a) ∧
+    (∀ a, (∀ u, s.cur a ≠ .push u) → s.pc a = .retp → s.got a = none → s.emptyAtPoll a = true) := by
+  have hi := PopWait.inv_reachable k s h
+  refine ⟨hi.b, fun a u => (hi.c a).g1 u, ?_, ?_, fun a => (hi.c a).e0⟩
+  · intro a t tl hk hc hp hg
+    exact ⟨(hi.c a).e0 (by simp [hc]) hp hg, (hi.c a).w4 t tl hk hc hp hg⟩
+  · intro a abs hk hc hp hg
+    exact ⟨(hi.c a).e0 (by simp [hc]) hp hg, (hi.c a).t2 abs hk hc hp hg⟩
+
+/-- what the ghost flags of `popwait_no_loss` record: `emptyAtPoll` becomes true only at an instant at which the queue
+is empty (the `is_empty` load that returned 1, or the pop under the lock that found nothing), `lastRead` is the value of
+the actor's own clock read, a unit enters `taken`/`got` only by the `take` that removes it from the queue, and a return
+hands over exactly the held unit -/
+theorem popwait_ghosts_sound (k : PopWait.Kind) (s s' : PopWait.St) (h : (PopWait.machine k).Reachable s) (a : PopWait.Actor) :
+    (PopWait.step k s (.loadEmpty a true) = some s' → s.q = []) ∧
+    (PopWait.step k s (.take a none) = some s' → s.q = [] ∧ s'.q = []) ∧
+    (∀ u, PopWait.step k s (.take a (some u)) = some s' →
+        s'.got a = some u ∧ s'.taken = s.taken ++ [u] ∧ s.q.count u = s'.q.count u + 1 ∧ s'.q.length + 1 = s.q.length) ∧
+    (∀ v, PopWait.step k s (.clock a v) = some s' → s'.lastRead a = v ∧ s.now ≤ v ∧ s'.now = v) ∧
+    (∀ r, PopWait.step k s (.ret a r) = some s' → r = s.got a ∧ s'.got a = none) := by
+  have hi := PopWait.inv_reachable k s h
+  refine ⟨?_, ?_, ?_, ?_, ?_⟩
+  · intro hs
+    simp only [PopWait.step, Option.map_eq_some_iff] at hs
+    obtain ⟨s1, hs, _⟩ := hs
+    simp only [PopWait.step0, PopWait.stepLoadEmpty] at hs
+    split at hs
+    · cases hs
+    · rename_i hv; exact hi.a.flagIff.mp (by simpa using hv)
+  · intro hs
+    simp only [PopWait.step, Option.map_eq_some_iff] at hs
+    obtain ⟨s1, hs, rfl⟩ := hs
+    obtain ⟨p, _, hc⟩ := PopWait.take_cases s s1 a none hs
+    rcases hc with ⟨htf, _, rfl⟩ | ⟨x, rest, _, hr, _⟩
+    · have := PopWait.takeFrom_none htf
+      exact ⟨this, by simpa [PopWait.bump, PopWait.actorOf, PopWait.setPc] using this⟩
+    · cases hr
+  · intro u hs
+    simp only [PopWait.step, Option.map_eq_some_iff] at hs
+    obtain ⟨s1, hs, rfl⟩ := hs
+    obtain ⟨p, _, hc⟩ := PopWait.take_cases s s1 a (some u) hs
+    rcases hc with ⟨_, hr, _⟩ | ⟨x, rest, htf, hr, rfl⟩
+    · cases hr
+    · cases hr
+      have := PopWait.takeFrom_some htf
+      refine ⟨by simp [PopWait.bump, PopWait.actorOf, PopWait.setPc, upd], by simp [PopWait.bump, PopWait.actorOf, PopWait.setPc], ?_, ?_⟩
+      · have := this.2.2 u; simpa [PopWait.bump, PopWait.actorOf, PopWait.setPc] using this
+      · simpa [PopWait.bump, PopWait.actorOf, PopWait.setPc] using this.2.1
+  · intro v hs
+    simp only [PopWait.step, Option.map_eq_some_iff] at hs
+    obtain ⟨s1, hs, rfl⟩ := hs
+    simp only [PopWait.step0, PopWait.stepClock] at hs
+    split at hs
+    · cases hs
+    · rename_i hv
+      have hv : s.now ≤ v := by omega
+      (repeat' (split at hs)) <;> first
+        | (cases hs; done)
+        | (cases hs; simp [PopWait.bump, PopWait.actorOf, PopWait.setPc, upd, hv])
+  · intro r hs
+    simp only [PopWait.step, Option.map_eq_some_iff] at hs
+    obtain ⟨s1, hs, rfl⟩ := hs
+    simp only [PopWait.step0, PopWait.stepRet] at hs
+    split at hs
+    · rename_i hg; cases hs
+      exact ⟨hg.2, by simp [PopWait.bump, PopWait.actorOf, PopWait.setPc, upd]⟩
+    · cases hs
+
+/-- **a polling pop_wait returns in bounded time.**  Model assumptions, exactly the statement's: a clock read never
+returns less than an earlier one (`clock a v` requires `v ≥ now`) and a `nanosleep(100 ns)` that starts after a read of
+`v` ends no earlier than `v + 100` (`sleepDone` requires `now ≥ wake = v + 100`).  Then, in every reachable state and
+for all interleavings with other producers and consumers, a `pop_wait(t)` in progress on a FIFO / RANDWS pool
+(1) has read the clock — once per loop iteration — at most `⌊t/100⌋ + 1` times while it is still looping and at most
+    `⌊t/100⌋ + 2` times when it returns (`⌈t / 100 ns⌉ + 2` iterations at most);
+(2) if it has never seen the pool non-empty (the pool "stays empty"), it has executed exactly three atomic steps per
+    iteration (`is_empty` load, clock read, sleep): at most `3·(⌊t/100⌋ + 2)` own steps in all, no lock operation, and
+    the only way out is the empty-handed return;
+(3) the iteration in progress can always continue: the load of `is_empty = 1` is enabled at the loop top, any clock value
+    `≥ now` is accepted at the time check, and the sleep ends as soon as time has passed `wake`. -/
+theorem popwait_bounded (s : PopWait.St) (h : (PopWait.machine .poll).Reachable s) (a : PopWait.Actor) (t : Nat) (tl : Bool)
+    (hc : s.cur a = .popWait t tl) :
+    ((PopWait.LoopA (s.pc a) ∨ s.pc a = .wTime ∨ s.pc a = .wSleep) → s.reads a ≤ t / 100 + 1) ∧
+    (s.pc a = .retp → s.reads a ≤ t / 100 + 2) ∧
+    (s.sawItems a = false → s.pc a ≠ .idle →
+        (s.pc a = .aTop ∨ s.pc a = .wTime ∨ s.pc a = .wSleep ∨ s.pc a = .retp) ∧ s.steps a ≤ 3 * s.reads a + 1 ∧
+        s.steps a ≤ 3 * (t / 100 + 2) ∧ (s.pc a = .retp → s.got a = none)) ∧
+    (s.pc a = .aTop → s.flag = true → (PopWait.step .poll s (.loadEmpty a true)).isSome) ∧
+    (s.pc a = .wTime → ∀ v, s.now ≤ v → (PopWait.step .poll s (.clock a v)).isSome) ∧
+    (s.pc a = .wSleep → s.wake a ≤ s.now → (PopWait.step .poll s (.sleepDone a)).isSome) ∧
+    (s.pc a = .wSleep → (PopWait.step .poll s (.advance (max s.now (s.wake a)))).isSome) := by
+  have hi := PopWait.inv_reachable .poll s h
+  have hc' := hi.c a
+  refine ⟨?_, ?_, ?_, ?_, ?_, ?_, ?_⟩
+  · intro hp; have := hc'.w3 t tl rfl hc hp; omega
+  · intro hp; have := hc'.w5 t tl rfl hc hp; omega
+  · intro hs hp
+    have h6 := hc'.w6 t tl rfl hc hs hp
+    have h3 := hc'.w3 t tl rfl hc
+    have h5 := hc'.w5 t tl rfl hc
+    rcases h6 with ⟨e, hst⟩ | ⟨e, hst⟩ | ⟨e, hst⟩ | ⟨e, hst⟩
+    · have := h3 (by simp [e, PopWait.LoopA]); refine ⟨by simp [e], by omega, by omega, by simp [e]⟩
+    · have := h3 (by simp [e]); refine ⟨by simp [e], by omega, by omega, by simp [e]⟩
+    · have := h3 (by simp [e]); refine ⟨by simp [e], by omega, by omega, by simp [e]⟩
+    · have := h5 e
+      refine ⟨by simp [e], by omega, by omega, ?_⟩
+      intro _
+      -- a call that never saw the pool non-empty never took a unit: it is not at a take position and holds nothing
+      cases hgot : s.got a with
+      | none => rfl
+      | some u =>
+        exfalso
+        have hk := hc'.s2 u rfl hgot
+        rw [hs] at hk; cases hk
+  · intro hp hf
+    simp [PopWait.step, PopWait.step0, PopWait.stepLoadEmpty, hp, hf, PopWait.afterEmpty, hc]
+  · intro hp v hv
+    have : ¬ v < s.now := by omega
+    simp only [PopWait.step, PopWait.step0, PopWait.stepClock, this, if_false, hp, hc]
+    cases s.start a <;> simp <;> split <;> simp
+  · intro hp hw
+    have : ¬ s.now < s.wake a := by omega
+    simp [PopWait.step, PopWait.step0, PopWait.stepSleepDone, this, hp]
+  · intro _
+    have : ¬ max s.now (s.wake a) < s.now := by omega
+    simp [PopWait.step, PopWait.step0, PopWait.stepAdvance, this]
+
+/-- the same for `pop_timedwait(abs)` on a polling pool: with `base` the clock when the call began, at most
+`⌊(abs − base)/100⌋ + 1` clock reads (one per iteration, each preceded by a 100 ns sleep) before the empty-handed
+return, which happens at the first read beyond `abs` -/
+theorem poptimedwait_bounded (s : PopWait.St) (h : (PopWait.machine .poll).Reachable s) (a : PopWait.Actor) (abs : Nat)
+    (hc : s.cur a = .popTimedwait abs) :
+    ((PopWait.LoopA (s.pc a) ∨ s.pc a = .tSleep ∨ s.pc a = .tTime) → s.reads a ≤ (abs - s.base a) / 100) ∧
+    (s.pc a = .retp → s.reads a ≤ (abs - s.base a) / 100 + 1) ∧
+    (s.pc a = .tTime → ∀ v, s.now ≤ v → (PopWait.step .poll s (.clock a v)).isSome) ∧
+    (s.pc a = .tSleep → s.wake a ≤ s.now → (PopWait.step .poll s (.sleepDone a)).isSome) := by
+  have hi := PopWait.inv_reachable .poll s h
+  have hc' := hi.c a
+  refine ⟨?_, ?_, ?_, ?_⟩
+  · intro hp; have := (hc'.t1 abs rfl hc hp).1; omega
+  · intro hp; have := hc'.t3 abs rfl hc hp; omega
+  · intro hp v hv
+    have : ¬ v < s.now := by omega
+    simp only [PopWait.step, PopWait.step0, PopWait.stepClock, this, if_false, hp, hc]
+    split <;> simp
+  · intro hp hw
+    have : ¬ s.now < s.wake a := by omega
+    simp [PopWait.step, PopWait.step0, PopWait.stepSleepDone, this, hp]
+
+/-- **FIFO_WAIT: no lost wake-up, and nobody sleeps for ever.**  In every reachable state of the mutex + condition
+variable protocol (pushes signal under the mutex, `pop_wait` / `pop_timedwait` wait only after having seen the pool
+empty under the mutex, spurious wake-ups allowed):
+(1) while some consumer is asleep on the condition variable without having been signalled, every queued unit has a
+    wake-up in flight: `|queue| ≤ #consumers signalled that have not yet looked at the queue again + (1 if the mutex
+    holder is a pusher between its link and its signal)`; in particular the state "queue non-empty, a consumer asleep,
+    no wake-up in flight" is unreachable — a push that happens while a consumer sleeps wakes one;
+(2) the sleepers are exactly the actors at the wait position, every one of them has a finite deadline (`≤ clock it
+    read + t`, resp. `≤ abs`) after which its time-out step is enabled, and every signalled consumer is on its way to
+    the re-check: waiting for the mutex or popping under it (it pops whatever is there, possibly nothing);
+(3) a consumer goes to sleep only while the queue is empty (it holds the mutex from the emptiness check to the wait);
+(4) a blocking pop of this pool executes at most 8 atomic steps of its own. -/
+theorem popwait_fifo_wait_no_lost_signal (s : PopWait.St) (h : (PopWait.machine .fwait).Reachable s) :
+    (s.waiters ≠ [] → s.q.length ≤ s.woken.length + PopWait.pendSig s) ∧
+    ¬ (s.q ≠ [] ∧ s.waiters ≠ [] ∧ s.woken = [] ∧ ∀ a, s.pc a ≠ .fpSig) ∧
+    (∀ a, a ∈ s.waiters ↔ s.pc a = .fwSleep) ∧
+    (∀ a t tl, s.cur a = .popWait t tl → s.pc a = .fwSleep → s.wake a ≤ s.lastRead a + t) ∧
+    (∀ a abs, s.cur a = .popTimedwait abs → s.pc a = .fwSleep → s.wake a ≤ abs) ∧
+    (∀ a, s.pc a = .fwSleep → s.wake a ≤ s.now → (PopWait.step .fwait s (.timeout a)).isSome) ∧
+    (∀ a, a ∈ s.woken → s.pc a = .fwRelock ∨ s.pc a = .fwCs) ∧
+    (∀ a, (s.pc a = .fwClock ∨ s.pc a = .fwWait) → s.q = [] ∧ s.owner = some a) ∧
+    (∀ a n, (∀ u, s.cur a ≠ .push u) → (∀ tl, s.cur a ≠ .pop tl) → PopWait.fwIdx (s.pc a) = some n → s.steps a ≤ n ∧ n ≤ 8) := by
+  have hi := PopWait.inv_reachable .fwait s h
+  refine ⟨hi.f, ?_, hi.a.waitIff, fun a t tl hc hp => (hi.c a).f2 t tl hc hp, fun a abs hc hp => (hi.c a).f3 abs hc (Or.inr hp),
+    ?_, hi.a.wokenPc, ?_, ?_⟩
+  · rintro ⟨hq, hw, hk, hp⟩
+    have h1 := hi.f hw
+    have h0 : PopWait.pendSig s = 0 := by
+      have := PopWait.pendSig_le s
+      have hne : ¬ PopWait.pendSig s = 1 := fun e => by
+        obtain ⟨a, ha⟩ := (PopWait.pendSig_iff hi.a).mp e
+        exact hp a ha
+      omega
+    rw [hk, h0] at h1
+    have : s.q.length ≠ 0 := by simpa using hq
+    simp at h1; exact hq h1
+  · intro a hp hw
+    simp [PopWait.step, PopWait.step0, PopWait.stepTimeout, hp, hw]
+  · intro a hp
+    refine ⟨hi.a.sawEmpty a hp, (hi.a.ownerIff a).mpr ?_⟩
+    rcases hp with e | e <;> simp [e, PopWait.HasLock]
+  · intro a n h1 h2 hn
+    refine ⟨(hi.c a).f4 rfl h1 h2 n hn, ?_⟩
+    cases hp : s.pc a <;> simp [hp, PopWait.fwIdx] at hn <;> omega
+
+/-- non-vacuity, polling pool: a `pop_wait(250 ns)` on a pool that stays empty reads the clock at 1000, 1100, 1200 and
+returns NULL at the read of 1300 — four iterations = ⌊250/100⌋ + 2, the bound of `popwait_bounded` is attained — after
+11 = 3·4 − 1 own steps -/
+example :
+    ((PopWait.machine .poll).run PopWait.init
+      [.call 3 (.popWait 250 false), .loadEmpty 3 true, .clock 3 1000, .advance 1100, .sleepDone 3,
+       .loadEmpty 3 true, .clock 3 1100, .advance 1200, .sleepDone 3,
+       .loadEmpty 3 true, .clock 3 1200, .advance 1300, .sleepDone 3,
+       .loadEmpty 3 true, .clock 3 1300]).map
+      (fun s => decide (s.pc 3 = .retp ∧ s.got 3 = none ∧ s.reads 3 = 4 ∧ s.steps 3 = 11 ∧ s.start 3 = some 1000 ∧
+        s.lastRead 3 = 1300 ∧ s.emptyAtPoll 3 = true)) = some true := by decide
+
+/-- non-vacuity, polling pool: a unit pushed while the consumer sleeps in its poll loop is found at the next poll
+(fast-path load of `is_empty = 0`, try-lock, pop, release) and returned; a second consumer that raced for it spins on
+the lock, then sees `is_empty = 1` again and goes to its time check -/
+example :
+    ((PopWait.machine .poll).run PopWait.init
+      [.call 2 (.popWait 1000 false), .loadEmpty 2 true, .clock 2 500, .call 4 (.popWait 50 false),
+       .call 1 (.push 7), .tas 1 false, .link 1, .clear 1, .ret 1 none,
+       .advance 600, .sleepDone 2, .loadEmpty 2 false, .loadEmpty 4 false, .tas 2 false, .tas 4 true,
+       .take 2 (some 7), .loadEmpty 4 true, .clear 2, .ret 2 (some 7)]).map
+      (fun s => decide (s.pc 2 = .idle ∧ s.pc 4 = .wTime ∧ s.q = [] ∧ s.flag = true ∧ s.pushed = [7] ∧ s.taken = [7] ∧
+        s.lock = false ∧ s.sawItems 4 = true)) = some true := by decide
+
+/-- non-vacuity, FIFO_WAIT: consumer 2 sleeps on the condition variable with deadline 1500, a push signals it, it
+re-locks and pops the unit; consumer 3 (pop_timedwait, deadline 2000) is not signalled, times out at 2000, re-checks
+under the mutex and returns empty-handed -/
+example :
+    ((PopWait.machine .fwait).run PopWait.init
+      [.call 2 (.popWait 1000 false), .mlock 2, .loadEmpty 2 true, .clock 2 500, .condWait 2 1500,
+       .call 3 (.popTimedwait 2000), .mlock 3, .loadEmpty 3 true, .condWait 3 2000,
+       .call 1 (.push 9), .mlock 1, .link 1, .signal 1 (some 2), .munlock 1, .ret 1 none,
+       .mlock 2, .take 2 (some 9), .munlock 2, .ret 2 (some 9),
+       .advance 2000, .timeout 3, .mlock 3, .take 3 none, .munlock 3, .ret 3 none]).map
+      (fun s => decide (s.pc 2 = .idle ∧ s.pc 3 = .idle ∧ s.q = [] ∧ s.waiters = [] ∧ s.woken = [] ∧ s.pushed = [9] ∧
+        s.taken = [9] ∧ s.steps 3 = 7)) = some true := by decide
+
+/-- the model rejects what the code cannot do: a pusher that skips its signal (unlock right after the link), a sleeper
+that times out before its deadline, an empty-handed return of pop_wait before the budget is exceeded -/
+example :
+    ((PopWait.machine .fwait).run PopWait.init [.call 1 (.push 9), .mlock 1, .link 1, .munlock 1]).isNone ∧
+    ((PopWait.machine .fwait).run PopWait.init [.call 2 (.popWait 1000 false), .mlock 2, .loadEmpty 2 true, .clock 2 500, .condWait 2 1500,
+       .advance 1499, .timeout 2]).isNone ∧
+    ((PopWait.machine .poll).run PopWait.init [.call 3 (.popWait 250 false), .loadEmpty 3 true, .clock 3 1000, .advance 1100, .sleepDone 3,
+       .loadEmpty 3 true, .clock 3 1250, .ret 3 none]).isNone := by decide
 
 end ArgoVerif.Props.C19
